@@ -120,6 +120,58 @@ CHECKS = {'C01': {'note': 'trusted: rustc MIR + trait resolution, PANIC_API/SAFE
          'text': "Decides: string literals pass through an escape before being quoted, both call-argument arms undo the parser's reverse storage, no "
                  'undischarged panic edge in the translator, every grammar node has an IntoSqlBuilder impl. SQL re-parse equivalence is not decided.'}}
 
+# ---- later extensions of the rule sets (kept as an overlay so that the history of each text stays readable)
+UPDATES = {
+ 'C01': {'technique': 'MIR panic-edge census + call-graph SCC guard dominance + depth-counter inheritance dataflow; thorough: stack budget from the compiler-emitted frame sizes (.stack_sizes) over the guarded cycles',
+         'text': 'Decides the structural necessary conditions of totality: every panic-capable construct (Assert terminator, panicking std/chrono call) in rscel and rscel-to-sql is discharged by a class rule or a '
+                 'reviewed table row; every recursion cycle is structural over an owned value (possibly through pass-through helpers) or cut by a dominating depth guard that is not reset on the cycle; a parser created '
+                 'while parsing (format-string segments) inherits the nesting counter before it is used; jump targets are bounds-checked. Thorough tier: for every guarded recursion, depth limit x heaviest call chain '
+                 'between two guard passes (frame sizes read from the object code the compiler emits with -Z emit-stack-sizes, dev and optimised profile; nothing is run) + a helper allowance fits the 2 MiB stack of a '
+                 'spawned thread - the dev profile of the parser does not (known finding). Exhaustive over the finite site set of the current tree; loop termination is not decided.'},
+ 'C03': {'technique': 'MIR assert/cast/callee rules over the operator impls + symbolic execution of neg, type_prop and + - * / % into decision tables',
+         'text': 'Decides that no integer arm of + - * / % unary- can wrap or depend on the build profile (no Overflow assert, checked_* primitives, zero tests dominate / and %), and - from decision tables obtained by '
+                 'symbolic execution - the whole case analysis of the arithmetic layer: type_prop widens every numeric pair by the fixed rules (int/uint through i64::try_from with the pair left mixed when the uint has no '
+                 'int value, bool as 0/1 of the other type, anything with double through `as f64`, every other pair unchanged and in order); each binary operator sends int and uint pairs through the checked primitive on '
+                 '(left, right) with None -> error, double pairs through the IEEE operation on (left, right), tests the RIGHT operand of / and % against zero first, lets a failed left operand win, concatenates left then '
+                 'right, and answers every other pair with an error; unary minus is checked_neg on int, the IEEE sign flip on double, an error otherwise; folder and VM share the one impl. Numeric results themselves are std\'s.'},
+ 'C04': {'technique': 'MIR callee/cast rules + symbolic execution of ord / eq / lt / le / gt / ge into decision tables',
+         'text': 'Decides the wiring and the case analysis of the comparison layer: != is !(==); one ord behind < <= > >=, whose table (by symbolic execution) compares the payloads of the eight comparable types with '
+                 'partial_cmp in operand order, orders a mixed int/uint pair by magnitude and is an error for every other pair; lt / le / gt / ge are true for exactly {Less}, {Less, Equal}, {Greater}, {Greater, Equal}; '
+                 '== compares payloads on the diagonal, is false across types after widening, and handles every pair of operand classes the same way in both orders (symmetry of the table); sort/min/max use that order with '
+                 'strict replacement. Does not decide transitivity on doubles (std partial_cmp).'},
+ 'C11': {'technique': 'effect / who-may-call rules + type-closure walk + must-update dataflow over the mutators of the stored state',
+         'text': None},
+ 'C12': {'technique': None, 'text': None},
+ 'C13': {'technique': 'symbolic execution of the literal scanners into escape / digit tables + MIR expression trees of token payloads + checked-narrowing rules',
+         'text': None},
+ 'C16': {'technique': 'sibling cross-check + frozen callee rows over resolved MIR callees + symbolic-execution rows of time arithmetic',
+         'text': None},
+ 'C19': {'technique': 'ADT/attribute rules over the serde closure + JSON nesting budget computed from the serde type graph, the emission templates and the parser limit',
+         'text': None},
+ 'C20': {'technique': 'symbolic execution of every IntoSqlBuilder impl and every SqlBuilder::to_sql into translation tables (node -> builder -> text) + must-call / sibling rules',
+         'text': 'Decides the translation itself, read off tables that symbolic execution of the translator yields: every binary node becomes (lhs, SQL token of the same operator, rhs) with the frozen token table '
+                 '(|| OR, && AND, == =, != <>, < <= > >= in, + - * / %), the ternary (condition, true, false), unary operators (operator run, operand), parentheses are kept, list elements stay in source order, member '
+                 'chains wrap the builder made so far, call arguments are reversed back to source order in both call arms, type constructors become casts of their single argument to the frozen SQL types; every builder '
+                 'prints its operands in field order; an operand followed by a tighter-binding postfix (::type, [index], (args)) passes through the guard that parenthesises compound text and the builders that print '
+                 '`operand operator operand` declare themselves compound; string literals pass through the quote-doubling escape; match and other untranslatable constructs are reported as unsupported; no panic edge in '
+                 'the translator. The SQL text is not re-parsed.'},
+}
+EXTRA_TEXT = {
+ 'C11': ' Also: in every mutator of CelContext / BindContext a field that is updated at all is updated on every path on which another field is updated (no derived table can keep a stale entry after a name is replaced).',
+ 'C12': ' Also: a program found under an identifier is ALWAYS evaluated by run_raw on the same interpreter (no path from the hit to the return avoids it).',
+ 'C13': ' Also: every Int / UInt / Float token the number scanner builds carries exactly the result of the std parser for the scanned text on every path; the one accepting range test of the escape tables is the octal first digit 0..3.',
+ 'C16': ' Also: decision rows of timestamp / duration + and - (t + d, d + t, t - d through the checked signed operations in operand order, t1 - t2 = signed_duration_since(t1, t2), d1 +/- d2 checked, None -> error).',
+ 'C19': ' Also: every enum of the closure keeps the externally tagged representation; only the reviewed run-time-only CelValue variants (Message, Enum, Dyn) are left out; envelope + (parser nesting limit - 1) x JSON levels per nested code block + deepest constant <= 127, the deepest document serde_json reads back.',
+}
+for _k, _u in UPDATES.items():
+    for _f, _v in _u.items():
+        if _v is not None:
+            CHECKS[_k][_f] = _v
+for _k, _t in EXTRA_TEXT.items():
+    if not CHECKS[_k]['text'].endswith(_t):
+        CHECKS[_k]['text'] = CHECKS[_k]['text'] + _t
+
+
 NOT_APPLICABLE = {}
 
 
